@@ -291,11 +291,18 @@ def _weave_sub(sub, e, fnid, src, sig_end, body_close, lps, edits, vacuity, spli
             raise AnchorLost('bad hint header %r' % head)
         where_, k, stmt = m.group(1), int(m.group(2)), m.group(3)
         pos = sig_end
+        mlen = len(stmt)
+        # `…` in an anchor stands for any text without `;{}` (e.g. the name of a local variable)
+        rx = re.compile('[^;{}]*?'.join(re.escape(x) for x in stmt.split('\u2026'))) if '\u2026' in stmt else None
         for _ in range(k):
-            pos = src.find(stmt, pos + 1, body_close)
+            if rx is None:
+                pos = src.find(stmt, pos + 1, body_close)
+            else:
+                mm = rx.search(src, pos + 1, body_close)
+                pos, mlen = (mm.start(), mm.end() - mm.start()) if mm else (-1, 0)
             if pos < 0:
                 raise AnchorLost('hint anchor %r #%d in %s' % (stmt, k, fnid))
-        at = pos if where_ == 'before' else pos + len(stmt)
+        at = pos if where_ == 'before' else pos + mlen
         if where_ == 'before':
             # the anchor text may have become the tail of a longer statement (`let x = <anchor>`): proof text goes
             # before the whole statement, never into the middle of one
